@@ -396,6 +396,28 @@ _OBJECT_ATTRS = set(dir(object)) | {"__dict__", "__class__", "__module__",
                                     "__weakref__"}
 
 
+def _package_attr_stores(program):
+    """Every attribute name stored anywhere in the package (``x.name = ..``,
+    setattr(x, "name", ..)): a helper outside the class may be what gives
+    the instances their attributes."""
+    got = getattr(program, "_slips_attr_stores", None)
+    if got is None:
+        got = set()
+        for m2 in program.modules.values():
+            for n in ast.walk(m2.tree):
+                if isinstance(n, ast.Attribute) and isinstance(
+                        n.ctx, (ast.Store, ast.Del)):
+                    got.add(n.attr)
+                elif isinstance(n, ast.Call) and isinstance(
+                        n.func, ast.Name) and n.func.id == "setattr" and \
+                        len(n.args) >= 2 and isinstance(
+                            n.args[1], ast.Constant) and \
+                        isinstance(n.args[1].value, str):
+                    got.add(n.args[1].value)
+        program._slips_attr_stores = got
+    return got
+
+
 def selfattr(program, classes, m):
     """[(node, class name, attribute)] for ``self.x`` reads that nothing in
     the class's family defines."""
@@ -426,7 +448,7 @@ def selfattr(program, classes, m):
                 break
         if family is None:
             continue
-        have = set(_OBJECT_ATTRS)
+        have = set(_OBJECT_ATTRS) | _package_attr_stores(program)
         ok = True
         for c in family:
             d = _class_defines(c)
@@ -1512,6 +1534,185 @@ def unbound(fn):
 
 
 # --------------------------------------------------------------------------
+# SNAPSHOT
+# --------------------------------------------------------------------------
+_SNAP_FUNCS = {"set", "list", "tuple", "frozenset", "dict", "sorted", "len",
+               "sum", "min", "max"}
+
+
+def _new_key_evidence(target, src, loop):
+    """Is the key stored under known to be new: a test / assertion
+    ``<key> not in <src>`` earlier in the loop body?"""
+    kd = ast.dump(target.slice)
+    for b in loop.body:
+        for x in _walk_scope(b):
+            if isinstance(x, ast.Compare) and len(x.ops) == 1 and \
+                    isinstance(x.ops[0], ast.NotIn) and \
+                    _is_name(x.comparators[0], src) and \
+                    ast.dump(x.left) == kd and \
+                    (x.lineno, x.col_offset) <= (target.lineno,
+                                                 target.col_offset):
+                return True
+    return False
+
+
+def snapshot(fn):
+    """A value made from the contents of a container before a loop
+    (``seen = set(table)``, ``n = len(queue)``), read inside the loop, while
+    the loop itself changes that container (``table[k] = v``): from the
+    second pass on the value no longer describes the container - it was
+    computed once instead of per pass."""
+    out = []
+    stores = {}
+    for n in _own_nodes(fn):
+        if isinstance(n, ast.Name) and isinstance(n.ctx, (ast.Store,
+                                                           ast.Del)):
+            stores.setdefault(n.id, []).append(n)
+    for v, sts in stores.items():
+        if len(sts) != 1:
+            continue
+        st = sts[0]._parent
+        if not (isinstance(st, ast.Assign) and len(st.targets) == 1 and
+                st.targets[0] is sts[0]):
+            continue
+        val = st.value
+        src = None
+        if isinstance(val, ast.Call) and isinstance(val.func, ast.Name) and \
+                val.func.id in _SNAP_FUNCS and len(val.args) == 1 and \
+                not val.keywords and isinstance(val.args[0], ast.Name):
+            src = val.args[0].id
+        elif isinstance(val, ast.Call) and isinstance(
+                val.func, ast.Attribute) and val.func.attr in (
+                    "copy", "keys", "values", "items") and \
+                isinstance(val.func.value, ast.Name) and not val.args and \
+                val.func.attr == "copy":
+            src = val.func.value.id
+        if src is None or src == v:
+            continue
+        # the container is bound once (or is a parameter) - the same object
+        # throughout
+        params = {a.arg for a in ast.walk(fn.args) if isinstance(a, ast.arg)}
+        if len(stores.get(src, [])) > (0 if src in params else 1):
+            continue
+        for loop in _own_nodes(fn):
+            if not isinstance(loop, (ast.For, ast.While)):
+                continue
+            if _inside(st, loop):
+                continue
+            if (loop.lineno, loop.col_offset) < (st.lineno, st.col_offset):
+                continue
+            # the loop is not nested in another loop that re-runs the
+            # snapshot statement together with it
+            outer = [q for q in _loops_above(loop, fn)]
+            if any(_inside(st, q) for q in outer):
+                continue
+            reads = [x for b in loop.body for x in _walk_scope(b)
+                     if isinstance(x, ast.Name) and x.id == v and
+                     isinstance(x.ctx, ast.Load)]
+            if not reads:
+                continue
+            muts = []
+            for b in loop.body:
+                for x in _walk_scope(b):
+                    if isinstance(x, ast.Call) and isinstance(
+                            x.func, ast.Attribute) and \
+                            x.func.attr in _SIZE_CHANGERS and \
+                            _is_name(x.func.value, src):
+                        muts.append(x)
+                    elif isinstance(x, (ast.Assign, ast.AugAssign,
+                                        ast.Delete)):
+                        tg = x.targets if not isinstance(
+                            x, ast.AugAssign) else [x.target]
+                        for t in tg:
+                            if isinstance(t, ast.Subscript) and \
+                                    _is_name(t.value, src):
+                                if isinstance(x, ast.Delete):
+                                    muts.append(x)
+                                elif _new_key_evidence(t, src, loop):
+                                    # (a store under an existing key leaves
+                                    # the keys as they were)
+                                    muts.append(x)
+            if not muts:
+                continue
+            # a mutation after which the pass leaves the loop does not count
+            muts = [m_ for m_ in muts if not _leaves_loop_after(m_, loop)]
+            if not muts:
+                continue
+            # the loop iterating over the snapshot itself (for k in
+            # list(d): del d[k]) is the purpose of a snapshot
+            if isinstance(loop, ast.For) and any(
+                    x is r for r in reads for x in ast.walk(loop.iter)):
+                continue
+            # len() taken on purpose to bound a loop over the old part
+            if isinstance(val.func, ast.Name) and val.func.id == "len":
+                continue
+            out.append((reads[0], "%s = %s is computed once, before the "
+                        "loop at line %d, but the loop changes %s (line %d) "
+                        "and reads %s on every pass: from the second pass "
+                        "on it no longer describes %s" % (
+                            v, _txt(val, 40), loop.lineno, src,
+                            muts[0].lineno, v, src)))
+            break
+    return out
+
+
+# --------------------------------------------------------------------------
+# CACHEDMUT
+# --------------------------------------------------------------------------
+_MUT_CTORS = {"dict", "list", "set", "bytearray", "defaultdict",
+              "OrderedDict", "deque", "Counter"}
+
+
+def _fresh_mutable(e, fn, depth=0):
+    """Is e certainly a mutable object made in fn (a display, a
+    comprehension, a container constructor, an instance of a package class,
+    or a local bound only to such)?"""
+    if isinstance(e, (ast.Dict, ast.List, ast.Set, ast.ListComp,
+                      ast.DictComp, ast.SetComp)):
+        return True
+    if isinstance(e, ast.Call) and isinstance(e.func, ast.Name) and \
+            e.func.id in _MUT_CTORS:
+        return True
+    if isinstance(e, ast.Name) and depth < 3:
+        vals = [n._parent.value for n in _own_nodes(fn)
+                if isinstance(n, ast.Name) and n.id == e.id and
+                isinstance(n.ctx, ast.Store) and
+                isinstance(n._parent, ast.Assign) and
+                len(n._parent.targets) == 1 and n._parent.targets[0] is n]
+        stores = [n for n in _own_nodes(fn) if isinstance(n, ast.Name) and
+                  n.id == e.id and isinstance(n.ctx, ast.Store)]
+        return bool(vals) and len(vals) == len(stores) and all(
+            _fresh_mutable(v, fn, depth + 1) for v in vals)
+    return False
+
+
+def cachedmut(fn):
+    """A function under functools.lru_cache / cache (or a decorator named
+    memoize / memoized / cached) that returns a mutable object it made:
+    every caller with the same arguments gets the *same* object, so what
+    one caller does to it is seen by the next."""
+    decos = [_txt(d.func if isinstance(d, ast.Call) else d)
+             for d in fn.decorator_list]
+    hit = [d for d in decos if d.split(".")[-1] in (
+        "lru_cache", "cache", "memoize", "memoized", "cached",
+        "cached_property")]
+    if not hit:
+        return []
+    out = []
+    for r in _own_nodes(fn):
+        if isinstance(r, ast.Return) and r.value is not None and \
+                _fresh_mutable(r.value, fn):
+            out.append((r, "%s is decorated with %s and returns a mutable "
+                        "object it has made (%s): the cache hands the very "
+                        "same object to every later caller with the same "
+                        "arguments, so a change made through one result - "
+                        "by the caller or by the package itself - shows in "
+                        "all of them" % (fn.name, hit[0], _txt(r.value, 40))))
+            break
+    return out
+
+
+# --------------------------------------------------------------------------
 # frozen exceptions (reference tree), keyed by kind / module / scope / name
 # --------------------------------------------------------------------------
 EXCEPTIONS = {}
@@ -1559,13 +1760,50 @@ def findings(program, modules):
                             ("INTDIV", lambda d=d: intdiv(d)),
                             ("SHADOW", lambda d=d: shadow(d)),
                             ("SWALLOW", lambda d=d: swallow(d)),
-                            ("UNBOUND", lambda d=d: unbound(d))):
+                            ("UNBOUND", lambda d=d: unbound(d)),
+                            ("CACHEDMUT", lambda d=d: cachedmut(d)),
+                            ("SNAPSHOT", lambda d=d: snapshot(d))):
                 for n, text in f():
                     out.append((kind, mname, q, n, text, _txt(n, 50)))
     return out, stats
 
 
+_SELFTEST = []
+KINDS = ("UNDEF", "SELFATTR", "CALLSIG", "EXHAUST", "ITERMUT", "LATEBIND",
+         "INTDIV", "SHADOW", "SWALLOW", "UNBOUND", "CACHEDMUT", "SNAPSHOT")
+
+
+def selftest():
+    """Every analysis must report its positive example (and nothing in the
+    functions named *_ok*) in rigverif/slips_examples - on every run: a rule
+    whose expected count on the library is zero must still be shown to
+    match something."""
+    if _SELFTEST:
+        return _SELFTEST[0]
+    import os
+    from .core import Program, AnalysisError
+    here = os.path.join(os.path.dirname(os.path.abspath(__file__)),
+                        "slips_examples")
+    prog = Program(here)
+    res, _ = findings(prog, sorted(prog.modules))
+    kinds = {}
+    for kind, mname, q, n, text, key in res:
+        kinds[kind] = kinds.get(kind, 0) + 1
+        if "_ok" in q:
+            raise AnalysisError("SLIPS self-test: %s reported in the "
+                                "negative example %s" % (kind, q))
+    missing = [k for k in KINDS if not kinds.get(k)]
+    if missing:
+        raise AnalysisError("SLIPS self-test: no report for the positive "
+                            "example(s) of %s" % ", ".join(missing))
+    _SELFTEST.append(kinds)
+    return kinds
+
+
 def rule(program, rep, rule_id, modules):
+    kinds = selftest()
+    rep.note("SLIPS self-test: %d reports over %d kinds in "
+             "rigverif/slips_examples" % (sum(kinds.values()), len(kinds)))
     res, stats = findings(program, modules)
     for kind, mname, q, n, text, key in res:
         if (kind, mname, q, key) in EXCEPTIONS or \
